@@ -178,6 +178,37 @@ def scenarios():
                 cur = cur.rsplit("/", 1)[0]
     except Exception as e:       # noqa
         failures.append({"what": "generation failed for an API with a types-only sub-package", "error": repr(e)[:200]})
+    # a sub-package of a sub-package (acme.lab.v1.geo.shapes): its file has its types module and its service its package, below geo/shapes/
+    cases += 1
+    fs = req_files("acme.lab.v1")
+    g1 = G.new_file("acme/lab/v1/geo/point.proto", "acme.lab.v1.geo")
+    G.add_message(g1, "Point", [G.F("x", 1, G.T.TYPE_INT32)])
+    g2 = G.new_file("acme/lab/v1/geo/shapes/poly.proto", "acme.lab.v1.geo.shapes", deps=G.STD_DEPS + ["acme/lab/v1/geo/point.proto"])
+    G.add_message(g2, "Poly", [G.F("name", 1, G.T.TYPE_STRING), G.F("corner", 2, G.T.TYPE_MESSAGE, type_name=".acme.lab.v1.geo.Point")])
+    G.add_method(G.add_service(g2, "Polys"), "GetPoly", ".acme.lab.v1.geo.shapes.Poly", ".acme.lab.v1.geo.shapes.Poly", http=("get", "/v1/{name=polys/*}"))
+    try:
+        api, res = G.generate(fs + [g1, g2], "autogen-snippets=false",
+                              to_generate=["acme/lab/v1/things.proto", "acme/lab/v1/geo/point.proto", "acme/lab/v1/geo/shapes/poly.proto"])
+        names = [f.name for f in res.file]
+        tm = sorted(n for n in names if "/types/" in n and n.startswith("acme/lab_v1/") and not n.endswith("__init__.py"))
+        want = ["acme/lab_v1/geo/shapes/types/poly.py", "acme/lab_v1/geo/types/point.py", "acme/lab_v1/types/things.py"]
+        if tm != want:
+            failures.append({"what": "types modules != one per target proto file, each below the directory of its (nested) sub-package", "got": tm, "want": want})
+        sv = sorted(n for n in names if n.startswith("acme/lab_v1/") and n.endswith("/client.py"))
+        want = ["acme/lab_v1/geo/shapes/services/polys/client.py", "acme/lab_v1/services/archive/client.py", "acme/lab_v1/services/lab/client.py"]
+        if sv != want:
+            failures.append({"what": "service packages != one per service, each below the directory of its (nested) sub-package", "got": sv, "want": want})
+        for d_ in sorted({n.rsplit("/", 1)[0] for n in names if n.endswith(".py") and n.startswith("acme/lab_v1/")}):
+            cur = d_
+            while len(cur) >= len("acme/lab_v1"):
+                if cur + "/__init__.py" not in names:
+                    failures.append({"what": "directory on an import path without __init__.py", "dir": cur, "layout": "nested sub-package acme.lab.v1.geo.shapes"})
+                    break
+                cur = cur.rsplit("/", 1)[0]
+        if len(names) != len(set(names)):
+            failures.append({"what": "duplicate file names", "layout": "nested sub-package", "names": sorted({n for n in names if names.count(n) > 1})[:5]})
+    except Exception as e:       # noqa
+        failures.append({"what": "generation failed for an API with a nested sub-package", "error": repr(e)[:200]})
     # two target files with the same base name in different directories
     cases += 1
     fs = req_files("acme.lab.v1", ("x.proto",), dep=False)
